@@ -92,7 +92,7 @@ class Explorer:
     def __init__(self, assumptions=(), max_paths=2000, max_depth=400, timeout_ms=DEFAULT_TIMEOUT_MS, max_seconds=None):
         self.assumptions = list(assumptions)
         # wall-clock budget of one exploration: exceeding it is a harness error (never a verdict)
-        self.max_seconds = float(os.environ.get("SYMX_EXPLORE_BUDGET_S", "1500")) if max_seconds is None else max_seconds
+        self.max_seconds = float(os.environ.get("SYMX_EXPLORE_BUDGET_S", "600")) if max_seconds is None else max_seconds
         self._t0 = time.time()
         self.max_paths = max_paths
         self.max_depth = max_depth
